@@ -17,6 +17,7 @@ ID = "C02"
 PROPS = "props/C02.v"
 GENERATED = [tr.OUT, tr.OUT_FD]
 CASE_DEPS = ["lib/Dual.vo", "model/AldiTree.vo", "model/AldiMaps.vo"]
+CORR_WITHOUT_PROOFS = True      # the executable model does not depend on the proofs: a broken rule lemma still lets model vs code be compared
 ALLOWED_AXIOMS = {
     "sig_forall_dec", "sig_not_dec", "functional_extensionality_dep", "classic",
     "ClassicalDedekindReals.sig_forall_dec", "ClassicalDedekindReals.sig_not_dec",
